@@ -466,3 +466,7 @@ func ruleC13SharedDocument(c *Ctx) {
 	c.Doc("c13.shared-document", "for concurrent queries reading one shared document, no write site may target document storage at all — the temporary <- marker that C11 tolerates (restored by defer) is a concurrent map write here")
 	c.classifyWrites("c13.shared-document", nil, false)
 }
+
+// shared with C09 / C14: the parsed selectors in the process-wide cache are shared by all queries (a write is cross-talk
+// and a data race); a nested execution whose wait group is not chained loses the happens-before edge to the caller
+func init() { register("C13", ruleC09ParsedImmutable, ruleC14NestedWaits) }
